@@ -175,6 +175,7 @@ class Interp:
         self.max_loop = 4096
         self.unspec_cast = False
         self.special_hooks = {}
+        self.fast_if = True
         self.extra_roots = {}
         self.assume_casts_in_range = False
         self.cast_assumptions = []
@@ -838,8 +839,118 @@ class Interp:
         elif c is False:
             self.exec_block(st, s.orelse)
         else:
+            if self.fast_if and self._fast_if(st, s, c):
+                return
             self.branch(st, c, lambda s2: self.exec_block(s2, s.body),
                         (lambda s2: self.exec_block(s2, s.orelse)) if s.orelse else None)
+
+    # ---- if-conversion without forking, for branches made of plain assignments -------------------------
+    _PURE_CALLS = {"abs", "pow", "float64", "int64", "float32", "min", "max", "round", "log", "sqrt", "float", "int"}
+
+    def _plan_block(self, blk):
+        plan, written = [], set()
+        for stmt in blk:
+            if isinstance(stmt, ast.Pass):
+                continue
+            if isinstance(stmt, ast.Assign) and len(stmt.targets) == 1:
+                tgt, val, aug = stmt.targets[0], stmt.value, None
+            elif isinstance(stmt, ast.AugAssign):
+                tgt, val, aug = stmt.target, stmt.value, stmt.op
+            else:
+                return None
+            if isinstance(tgt, ast.Name):
+                wname = tgt.id
+                reads = [val] + ([_as_load(tgt)] if aug else [])
+            elif isinstance(tgt, ast.Subscript) and isinstance(tgt.value, ast.Name):
+                wname = tgt.value.id
+                reads = [val, tgt.slice] + ([_as_load(tgt)] if aug else [])
+            else:
+                return None
+            for r in reads:
+                for node in ast.walk(r):
+                    if isinstance(node, ast.Call):
+                        f = node.func
+                        nm = f.id if isinstance(f, ast.Name) else None
+                        if nm not in self._PURE_CALLS:
+                            return None
+                    if isinstance(node, (ast.Lambda, ast.ListComp, ast.Yield, ast.YieldFrom, ast.NamedExpr, ast.IfExp, ast.BoolOp)):
+                        return None
+                    if isinstance(node, ast.Name) and node.id in written and not (aug and node is getattr(r, "value", None)):
+                        return None
+            if aug and wname in written:
+                return None
+            written.add(wname)
+            plan.append((tgt, val, aug))
+        return plan
+
+    def _fast_if(self, st, s, c):
+        plans = []
+        for blk in (s.body, s.orelse):
+            pl = self._plan_block(blk)
+            if pl is None:
+                return False
+            plans.append(pl)
+        n_ob = len(self.obligations)
+        sides = []
+        try:
+            for pl, cond in zip(plans, (c, z_not(c))):
+                st.pc.append(V.to_z3(cond))
+                rec = {}
+                try:
+                    for tgt, val, aug in pl:
+                        v = self.eval(st, val)
+                        if isinstance(v, (Arr, CArr, list, dict, Instance, Choice)) or isinstance(v, tuple):
+                            raise _NoFast()
+                        if isinstance(tgt, ast.Name):
+                            if aug is not None:
+                                v = self.binop(st, aug, self.eval(st, _as_load(tgt)), v)
+                            rec[("name", tgt.id)] = v
+                        else:
+                            base = self.eval(st, tgt.value)
+                            idx = self.eval_index(st, tgt.slice)
+                            if not isinstance(base, Arr):
+                                raise _NoFast()
+                            idxs = idx if isinstance(idx, tuple) else (idx,)
+                            if len(idxs) != base.ndim or not all(isinstance(i, int) and not isinstance(i, bool) for i in idxs):
+                                raise _NoFast()
+                            pos_idx = []
+                            for i, nax in zip(idxs, base.shape):
+                                j = i + nax if i < 0 else i
+                                if not 0 <= j < nax:
+                                    raise _NoFast()
+                                pos_idx.append(j)
+                            if aug is not None:
+                                v = self.binop(st, aug, self.read_cell(st, base, base.pos(pos_idx)), v)
+                            if base.readonly:
+                                raise _NoFast()
+                            rec[("cell", base.bufid, base.pos(pos_idx))] = (self.cast_store(st, base.dtype, v), base)
+                finally:
+                    st.pc.pop()
+                sides.append(rec)
+        except _NoFast:
+            del self.obligations[n_ob:]
+            return False
+        self.stats["fast_ifs"] = self.stats.get("fast_ifs", 0) + 1
+        rt, rf = sides
+        for key in list(rt) + [k for k in rf if k not in rt]:
+            if key[0] == "name":
+                nm = key[1]
+                old = st.env.get(nm, _MISSING)
+                a = rt.get(key, old)
+                b = rf.get(key, old)
+                if a is _MISSING:
+                    st.env[nm] = self._partial(b, z_not(c), nm)
+                elif b is _MISSING:
+                    st.env[nm] = self._partial(a, c, nm)
+                else:
+                    st.env[nm] = self.merge_value(st, c, a, b, st, st)
+            else:
+                _, bid, pos = key
+                old = st.heap[bid][pos]
+                a = rt[key][0] if key in rt else old
+                b = rf[key][0] if key in rf else old
+                st.wbuf(bid)[pos] = a if same(a, b) else self.ite_any(c, a, b)
+        return True
 
     def st_While(self, st, s):
         it = 0
@@ -1562,6 +1673,13 @@ class Interp:
 
     def carr_get(self, st, c, k):
         return self.lib.carr_get(self, st, c, k)
+
+
+class _NoFast(Exception):
+    pass
+
+
+_MISSING = object()
 
 
 class ModuleRefUser:
